@@ -2,12 +2,14 @@ package props
 
 import (
 	"bytes"
+	"errors"
 	"fmt"
 	"strings"
 	"syscall"
 	"testing"
 	"time"
 
+	"github.com/bluenviron/gohlslib/v2"
 	"github.com/bluenviron/mediacommon/v2/pkg/formats/fmp4"
 	"github.com/bluenviron/mediacommon/v2/pkg/formats/fmp4/seekablebuffer"
 	"pgregory.net/rapid"
@@ -40,13 +42,17 @@ type c13Scenario struct {
 	// LL serves the leading playlist as a Low-Latency history (SERVER-CONTROL, PART-INF, a preload
 	// hint naming the next segment, one more segment per reload); LLBreak damages the reloads:
 	// "" | drop-server-control | drop-part-inf | hint-garbage | hint-missing-resource
-	LL      bool   `json:"ll,omitempty"`
-	LLBreak string `json:"ll_break,omitempty"`
+	// MixedBadADTS: one audio frame of the MPEG-TS rendition (MixedRendition) has a broken ADTS header
+	MixedBadADTS bool `json:"mixed_bad_adts,omitempty"`
+	// RendBadADTS: one audio frame of the first MPEG-TS rendition has a broken ADTS header
+	RendBadADTS bool   `json:"rend_bad_adts,omitempty"`
+	LL          bool   `json:"ll,omitempty"`
+	LLBreak     string `json:"ll_break,omitempty"`
 }
 
 var fmp4Ops = []string{"truncate", "truncate-box", "flip", "garbage", "empty", "zero-dur", "huge-dur", "huge-base", "drop-lead", "unknown-track", "dup-track", "no-samples", "swap-tracks"}
 var initOps = []string{"truncate", "truncate-box", "flip", "garbage", "empty", "many-tracks", "dup-ids", "no-tracks", "unsupported-only", "shift-ids", "zero-timescale", "huge-timescale"}
-var tsOps = []string{"truncate", "truncate-packet", "flip", "garbage", "empty", "drop-lead-pid", "no-tables"}
+var tsOps = []string{"truncate", "truncate-packet", "flip", "garbage", "empty", "drop-lead-pid", "no-tables", "bad-adts", "bad-adts"}
 var playlistOps = []string{"bytes", "truncate", "flip", "empty", "no-segments", "huge-numbers", "bad-uri", "map-without-uri"}
 
 // ops that only make sense on a multivariant playlist (all of them leave it well-formed or nearly so)
@@ -72,9 +78,13 @@ func drawC13(t *rapid.T) c13Scenario {
 	}
 	if sc.Stream.Container == "fmp4" && len(sc.Stream.Renditions) > 0 && rapid.IntRange(0, 3).Draw(t, "mixed") == 0 {
 		sc.MixedRendition = true
+		sc.MixedBadADTS = rapid.Bool().Draw(t, "mixedBadADTS")
+	}
+	if sc.Stream.Container == "mpegts" && len(sc.Stream.Renditions) > 0 && rapid.IntRange(0, 2).Draw(t, "rendBadADTS") == 0 {
+		sc.RendBadADTS = true
 	}
 	nm := rapid.IntRange(0, 3).Draw(t, "nmut")
-	if len(sc.ExtraCodecs) == 0 && !sc.MixedRendition && !sc.LL && nm == 0 {
+	if len(sc.ExtraCodecs) == 0 && !sc.MixedRendition && !sc.LL && !sc.RendBadADTS && nm == 0 {
 		nm = 1
 	}
 	for i := 0; i < nm; i++ {
@@ -115,6 +125,40 @@ func drawC13(t *rapid.T) c13Scenario {
 		sc.Muts = append(sc.Muts, m)
 	}
 	return sc
+}
+
+// breakADTS overwrites the sync word of the nth (0-based) ADTS frame that starts a PES payload in
+// an MPEG-TS buffer. The PES stays well-formed; its audio frame does not decode.
+func breakADTS(b []byte, nth int) ([]byte, bool) {
+	c := append([]byte{}, b...)
+	seen := 0
+	for k := 0; k+188 <= len(c); k += 188 {
+		pkt := c[k : k+188]
+		if pkt[0] != 0x47 || pkt[1]&0x40 == 0 { // payload_unit_start only
+			continue
+		}
+		off := 4
+		if pkt[3]&0x20 != 0 { // adaptation field
+			off += 1 + int(pkt[4])
+		}
+		if off+9 >= 188 || pkt[off] != 0 || pkt[off+1] != 0 || pkt[off+2] != 1 {
+			continue
+		}
+		sid := pkt[off+3]
+		if sid < 0xc0 || sid > 0xdf { // audio stream ids
+			continue
+		}
+		p := off + 9 + int(pkt[off+8])
+		if p+2 > 188 || pkt[p] != 0xff || pkt[p+1]&0xf0 != 0xf0 {
+			continue
+		}
+		if seen == nth {
+			pkt[p], pkt[p+1] = 0x12, 0x34
+			return c, true
+		}
+		seen++
+	}
+	return b, false
 }
 
 // boxBoundaries lists the offsets at which top-level and second-level boxes start/end.
@@ -183,6 +227,9 @@ func mutateBytes(b []byte, m c13Mut, container string) []byte {
 		return m.Data
 	case "empty":
 		return []byte{}
+	case "bad-adts":
+		c, _ := breakADTS(b, 1+m.Arg%3)
+		return c
 	case "drop-lead-pid":
 		// remove every packet of the first elementary PID (256): no data of the leading track
 		var out []byte
@@ -494,6 +541,7 @@ func execC13(sc c13Scenario) core.Outcome {
 		o.Skip = true
 		return o
 	}
+	brokenADTS := false // exactly the damage a demuxer reports and skips
 	files := map[string][]byte{}
 	for k, v := range b.Files {
 		files[k] = v
@@ -511,6 +559,15 @@ func execC13(sc c13Scenario) core.Outcome {
 				files[u] = addExtraSamples(files[u], sc.ExtraCodecs, sc.ExtraFirst)
 			}
 			o.Labels = append(o.Labels, "unsupported-codec-track-with-data")
+		}
+	}
+	if sc.RendBadADTS && len(b.Renditions) > 0 && !b.Renditions[0].Def.ByteRange && len(b.Renditions[0].SegURIs) >= 2 {
+		bp := b.Renditions[0]
+		u := bp.SegURIs[len(bp.SegURIs)-1]
+		if c, ok := breakADTS(files[u], 1); ok {
+			files[u] = c
+			brokenADTS = true
+			o.Labels = append(o.Labels, "ts-rendition-bad-adts")
 		}
 	}
 	for _, m := range sc.Muts {
@@ -553,6 +610,19 @@ func execC13(sc c13Scenario) core.Outcome {
 				continue
 			}
 			u := bp.SegURIs[m.Index%len(bp.SegURIs)]
+			if m.Op == "bad-adts" {
+				// not in the first segment the client reads: track discovery parses its first frame
+				if sc.Stream.Container != "mpegts" || len(bp.SegURIs) < 2 {
+					continue
+				}
+				u = bp.SegURIs[len(bp.SegURIs)-1]
+				c, ok := breakADTS(files[u], 1+m.Arg%3)
+				if ok {
+					files[u] = c
+					brokenADTS = true
+				}
+				continue
+			}
 			files[u] = mutateBytes(files[u], m, sc.Stream.Container)
 		}
 	}
@@ -569,6 +639,14 @@ func execC13(sc c13Scenario) core.Outcome {
 		if tb, err := cli.Build(tsd); err == nil {
 			for p, f := range tb.Files {
 				files["mix_"+p] = f
+			}
+			if sc.MixedBadADTS && len(tb.Lead.SegURIs) > 1 {
+				u := "mix_" + tb.Lead.SegURIs[1]
+				if c, ok := breakADTS(files[u], 1); ok {
+					files[u] = c
+					brokenADTS = true
+					o.Labels = append(o.Labels, "mixed-rendition-bad-adts")
+				}
 			}
 			cp := *tb.Lead
 			cp.SegURIs = nil
@@ -647,6 +725,10 @@ func execC13(sc c13Scenario) core.Outcome {
 		// every playlist of the scenario either ends (ENDLIST) or stops evolving; the client never
 		// paces a unit for more than 10 s: 13 s without any request or delivered unit is a wedge
 		return fail(o, "the client neither finished, failed, requested nor delivered anything for 13 s (it did end after Close: %v): wedged; requests %v", r.WaitErr, reqURLs(r.Requests))
+	}
+	if brokenADTS && len(sc.Muts) <= 1 && errors.Is(r.WaitErr, gohlslib.ErrClientEOS) && len(r.DecodeErrors) == 0 {
+		// "skips the unusable piece (reporting through OnDecodeError ...) or ends with an error"
+		return fail(o, "an audio frame with a broken ADTS header was skipped silently: the client ended with ErrClientEOS and OnDecodeError was never called; requests %v", reqURLs(r.Requests))
 	}
 	for _, ti := range r.Tracks {
 		if ti.Codec == "nil" {
